@@ -88,6 +88,7 @@ def mtSummary (T n seed : Nat) : String :=
   s!"unique={bit unique} monotone={bit mono} copies={bit copies} n={recd.length}"
 
 def stepSt (d : DSt) : List String → DSt × String
+  | "on" :: _ :: rest => stepSt d rest   -- executed on a worker thread, strictly sequenced: same sequential semantics
   | ["bnew", b] => match slot b with | some b => obsOp d (.bnew b) | none => (d, "bad-op")
   | ["bdel", b] => match slot b with | some b => obsOp d (.bdel b) | none => (d, "bad-op")
   | ["bcopy", b, src] => match slot b, slot src with | some b, some x => obsOp d (.bcopy b x) | _, _ => (d, "bad-op")
